@@ -44,8 +44,12 @@ func (f *BinaryField) GenEncodeInto() (string, error) {
 
 func (f *BinaryField) GenReadFrom() (string, error) {
 	g := strErrBuf{}
+	g.printlnf("if l > enc.TLNum(reader.Length()-reader.Pos()) {")
+	g.printlnf("err = io.ErrUnexpectedEOF")
+	g.printlnf("} else {")
 	g.printlnf("value.%s = make([]byte, l)", f.name)
 	g.printlnf("_, err = io.ReadFull(reader, value.%s)", f.name)
+	g.printlnf("}")
 	return g.output()
 }
 
